@@ -74,7 +74,10 @@ func main() {
 		if i%*stride != *shard {
 			continue
 		}
-		if *maxCases > 0 && done >= *maxCases {
+		// bounded process lifetime: dynamic types (and the descriptors frugal keeps for
+		// them, 512 KiB each for large field ids) are never freed, so the driver replaces
+		// the worker after a number of cases or once it holds more than 1.2 GiB
+		if (*maxCases > 0 && done >= *maxCases) || (done > 0 && done%64 == 0 && harness.MemTotal() > 1200<<20) {
 			next = i
 			break
 		}
